@@ -342,6 +342,12 @@ fn format(opt: opt::Opt) -> Result<i32> {
     // Create a thread to handle the formatting output
     pool.execute(move || {
         for output in rx {
+            // A failed file always fails the run. This must not depend on the error being logged, as log
+            // records can be filtered out through `STYLUA_LOG` (e.g. `STYLUA_LOG=stylua=off`)
+            if output.is_err() {
+                EXIT_CODE.store(2, Ordering::SeqCst);
+            }
+
             match output {
                 Ok(result) => match result {
                     FormatResult::Complete => (),
@@ -351,6 +357,7 @@ fn format(opt: opt::Opt) -> Result<i32> {
                         match handle.write_all(&output) {
                             Ok(_) => (),
                             Err(err) => {
+                                EXIT_CODE.store(2, Ordering::SeqCst);
                                 error!("could not output to stdout: {:#}", err)
                             }
                         };
@@ -364,7 +371,10 @@ fn format(opt: opt::Opt) -> Result<i32> {
                         let mut handle = stdout.lock();
                         match handle.write_all(&diff) {
                             Ok(_) => (),
-                            Err(err) => error!("{:#}", err),
+                            Err(err) => {
+                                EXIT_CODE.store(2, Ordering::SeqCst);
+                                error!("{:#}", err)
+                            }
                         }
                     }
                 },
@@ -384,6 +394,7 @@ fn format(opt: opt::Opt) -> Result<i32> {
                                     match handle.write_all(structured_err.to_string().as_bytes()) {
                                         Ok(_) => (),
                                         Err(err) => {
+                                            EXIT_CODE.store(2, Ordering::SeqCst);
                                             error!("could not output to stdout: {:#}", err)
                                         }
                                     };
@@ -403,6 +414,11 @@ fn format(opt: opt::Opt) -> Result<i32> {
     let mut seen_files = HashSet::new();
 
     for result in walker {
+        // Likewise for a path which could not be walked
+        if result.is_err() {
+            EXIT_CODE.store(2, Ordering::SeqCst);
+        }
+
         match result {
             Ok(entry) => {
                 if entry.is_stdin() {
